@@ -390,6 +390,14 @@ def _variants():
 
 
 VARIANTS = _variants()
+# extension hooks (filled by iv_cgamma_ops.py): per function  gen(r, f, n, st) -> cases,  points(r, case) -> sample points,
+# req(case, box) -> [(status, what)];  per enclosure tag  (decide(box, enc), excess(box, enc, prec), show(enc))
+EXT_GEN, EXT_POINTS, EXT_REQ, EXT_DECIDE = {}, {}, {}, {}
+
+
+def enc_tag(enc):
+    """tag of a tagged enclosure ('mod2', (lo, hi)) / ('re', (lo, hi)), None for ordinary enclosures"""
+    return enc[0] if (isinstance(enc, tuple) and enc and isinstance(enc[0], str)) else None
 C14_FUNS = ["exp", "log", "sqrt", "sin", "cos", "tan", "cot", "sec", "csc", "atan", "atan2", "pow",
             "gamma", "rgamma", "loggamma", "factorial"]
 C15_FUNS = ["cexp", "clog", "ccos", "csin", "cabs", "carg", "cmul", "cdiv"]
@@ -1313,6 +1321,8 @@ def points_of(r, c):
     f, p = c.fun, c.prec
     if c.pts is not None:
         return c.pts
+    if f in EXT_POINTS:
+        return EXT_POINTS[f](r, c)
     if f in C15_FUNS:
         if f in ("cmul", "cdiv"):
             p1 = rect_points(r, c.args[0], p, CLIMS[f])
@@ -1545,6 +1555,8 @@ def box_str(box):
 def excess_bits(box, enc, prec):
     """for an OUTSIDE verdict: (component, side, k) with the exact value about 2^k ulps (of the prec-bit grid at the
     violated endpoint) beyond that endpoint"""
+    if enc_tag(enc):
+        return EXT_DECIDE[enc_tag(enc)][1](box, enc, prec)
     encs = [enc] if len(box) == 1 else list(enc)
     for idx, ((L, U), (l, u)) in enumerate(zip(box, encs)):
         for side, e, far in (("lower", L, l), ("upper", U, u)):
@@ -1568,6 +1580,8 @@ def excess_bits(box, enc, prec):
 
 def decide_box(box, enc):
     """enc: (lo, hi) for real-valued, ((lo, hi), (lo, hi)) for complex-valued"""
+    if enc_tag(enc):
+        return EXT_DECIDE[enc_tag(enc)][0](box, enc)
     encs = [enc] if len(box) == 1 else list(enc)
     inside = True
     for (L, U), (l, u) in zip(box, encs):
@@ -1579,6 +1593,8 @@ def decide_box(box, enc):
 
 
 def enc_str(fun, enc):
+    if enc_tag(enc):
+        return EXT_DECIDE[enc_tag(enc)][2](enc)
     if fun in COMPLEX_VALUED:
         return [[xstr(enc[0][0]), xstr(enc[0][1])], [xstr(enc[1][0]), xstr(enc[1][1])]]
     return [[xstr(enc[0]), xstr(enc[1])]]
@@ -1611,9 +1627,9 @@ def evaluate(cases, r, st, failing, budget_s=None, t0=None):
         if not good:
             continue
         for labels, box in good:
-            if f in COMPLEX_VALUED:
+            if f in COMPLEX_VALUED and f not in EXT_REQ:
                 continue
-            for status, what in requirements(f, c.args, box[0][0], box[0][1], c.prec):
+            for status, what in (EXT_REQ[f](c, box) if f in EXT_REQ else requirements(f, c.args, box[0][0], box[0][1], c.prec)):
                 st.add(f, "req_" + status)
                 if status == "fail":
                     inp = c.to_input()
@@ -1693,8 +1709,9 @@ SIZES = {
     # qm / qo: steered cases kept per function at the main precisions (24/53/64/113) / at other precisions
     ("C14", True): dict(n=2600, n2=1900, ng=1200, n_eval=13000, qm=450, qo=750, gam_precs=(24, 53, 64, 113), gam_n=80),
     ("C14", False): dict(n=40000, n2=30000, ng=12000, n_eval=200000, qm=7000, qo=12000, gam_precs=(10, 24, 53, 64, 100, 113, 200), gam_n=400),
-    ("C15", True): dict(n=1700, n2=1700, ng=0, n_eval=9000, qm=350, qo=550, gam_precs=(), gam_n=0),
-    ("C15", False): dict(n=30000, n2=30000, ng=0, n_eval=150000, qm=6000, qo=10000, gam_precs=(), gam_n=0),
+    # ncg: rectangles per complex gamma-family function (iv_cgamma_ops.py)
+    ("C15", True): dict(n=1700, n2=1700, ng=0, n_eval=9000, qm=350, qo=550, gam_precs=(), gam_n=0, ncg=420),
+    ("C15", False): dict(n=30000, n2=30000, ng=0, n_eval=150000, qm=6000, qo=10000, gam_precs=(), gam_n=0, ncg=9000),
 }
 
 
@@ -1719,10 +1736,15 @@ def build_cases(r, pid, quick, st):
         cases += steered_cases(r, [f for f in C14_FUNS if f not in GAMMAS], sz["n_eval"], sz["qm"], sz["qo"], st)
     else:
         for f in C15_FUNS:
+            if f in EXT_GEN:
+                continue
             n = sz["n"] if f not in ("cmul", "cdiv", "carg") else sz["n"] // 2
             for _ in range(n):
                 cases.append(gen_case_cplx(r, f, gen_prec(r), st))
         cases += steered_cases(r, ["cexp", "clog", "ccos", "csin", "cabs"], sz["n_eval"], sz["qm"], sz["qo"], st)
+        for f in C15_FUNS:          # extension functions last: the random stream of the cases above does not depend on them
+            if f in EXT_GEN:
+                cases += EXT_GEN[f](r, f, sz["ncg"], st)
     return cases
 
 
